@@ -121,6 +121,12 @@ func Print(v reflect.Value) string {
 			return "()"
 		}
 		return "(" + printList(v.FieldByName("keys")) + "|" + printList(v.FieldByName("values")) + ")"
+	case "tlb.HashmapAug": // the tree of extras is not observable (no accessor): keys and values only
+		return "(" + printList(v.FieldByName("keys")) + "|" + printList(v.FieldByName("values")) + ")"
+	case "tlb.HashmapAugE":
+		m := v.FieldByName("m")
+		return "(" + printList(m.FieldByName("keys")) + "|" + printList(m.FieldByName("values")) + "|" +
+			Print(v.FieldByName("extra")) + ")"
 	}
 	switch t.Kind() {
 	case reflect.Uint8, reflect.Uint16, reflect.Uint32, reflect.Uint64, reflect.Uint:
@@ -409,6 +415,26 @@ func fill(e *sexp, v reflect.Value) error {
 			return err
 		}
 		return fill(e.list[1], v.FieldByName("values"))
+	case "tlb.HashmapAug", "tlb.HashmapAugE":
+		m := v
+		n := 2
+		if baseName(t) == "tlb.HashmapAugE" {
+			m = v.FieldByName("m")
+			n = 3
+		}
+		if !e.isLst || len(e.list) != n {
+			return bad()
+		}
+		if err := fill(e.list[0], m.FieldByName("keys")); err != nil {
+			return err
+		}
+		if err := fill(e.list[1], m.FieldByName("values")); err != nil {
+			return err
+		}
+		if n == 3 {
+			return fill(e.list[2], v.FieldByName("extra"))
+		}
+		return nil
 	}
 	switch t.Kind() {
 	case reflect.Uint8, reflect.Uint16, reflect.Uint32, reflect.Uint64, reflect.Uint:
